@@ -3778,7 +3778,21 @@ void space_text()
                // Issue #1854
                if (pc->Is(CT_VBRACE_OPEN))
                {
-                  column = next->GetOrigCol();
+                  Chunk *before = pc->GetPrev();
+
+                  if (  before->IsNotNullChunk()
+                     && before->GetOrigLine() == next->GetOrigLine()
+                     && before->GetOrigColEnd() != 0
+                     && next->GetOrigCol() >= before->GetOrigColEnd())
+                  {
+                     // keep the gap the input had behind the chunk in front of the virtual brace:
+                     // the absolute column is no longer right once that chunk has moved
+                     column += next->GetOrigCol() - before->GetOrigColEnd();
+                  }
+                  else
+                  {
+                     column = next->GetOrigCol();
+                  }
                }
             }
             break;
